@@ -380,9 +380,24 @@ func (ctx *Ctx) rloop(path []byte, r *node, nodes []node) {
 			// Mark RL as inuse and loop over var using inspector.
 			rl.stat = rlInuse
 			rl.brk = false
+			rl.kset = false
 			ctx.Err = nil
 			if err := v.ins.Loop(v.val, rl, &rl.kbuf, ctx.bufS[1:]...); err != nil && ctx.Err == nil {
 				ctx.Err = err
+			}
+			if rl.kset {
+				// The key var points to the buffer of the loop object, which the next loop reuses: give the var its own copy.
+				bi := ctx.reserveBB()
+				ctx.bufBB[bi] = append(ctx.bufBB[bi], rl.kbuf...)
+				key := byteconv.B2S(r.loopKey)
+				for j := 0; j < ctx.ln; j++ {
+					if kv := &ctx.vars[j]; kv.key == key {
+						if p, ok := kv.val.(*[]byte); ok && p == &rl.kbuf {
+							kv.val = &ctx.bufBB[bi]
+						}
+						break
+					}
+				}
 			}
 			rl.stat = rlFree
 			return
